@@ -17,6 +17,7 @@ grader_cases() draws {'kind', 'g', 'single', 'slots'}: 'slots' holds one Slot pe
 matching / near-miss student text; not JSON - only the drawn inputs go into a case spec).
 """
 import re
+from vlib import rivals
 
 from hypothesis import strategies as st
 
@@ -125,7 +126,9 @@ def build(spec, debug=None):
     kw = {k: decode(v) for k, v in spec['kw'].items()}
     if debug is not None:
         kw['debug'] = bool(debug)
-    return GRADERS[spec['$g']](**kw)
+    g = GRADERS[spec['$g']](**kw)
+    rivals.after_build(g)       # a second grader of the same class, built and used before this one is (vlib/rivals.py)
+    return g
 
 
 # ----------------------------------------------------------------------------------------------------
